@@ -306,7 +306,18 @@ static void store_execute(const Plan &p, const ExecOpts &, Result &r) {
         if (o.k != "rec") continue;
         int t = (int)(((o.arg(0) % A_NTYPES) + A_NTYPES) % A_NTYPES), f = (int)(((o.arg(1) % D_NF) + D_NF) % D_NF);
         int64_t a1 = o.arg(2), a2 = o.arg(3);
-        Bytes good = artifact(fa, t), other = artifact(fb, t), rec = good;
+        Bytes good = artifact(fa, t), other = artifact(fb, t);
+        bool structural = false;
+        if (t == A_ECDSA_DER && (o.arg(2) & 3) == 0) {
+            // other well-formed records of the same type that a wallet may hold: placeholder signatures with one-octet
+            // integers, and the longest form (33-octet integers with a leading zero)
+            static const unsigned char tiny[3][8] = {{0x30, 0x06, 0x02, 0x01, 0x01, 0x02, 0x01, 0x01}, {0x30, 0x06, 0x02, 0x01, 0x00, 0x02, 0x01, 0x00}, {0x30, 0x06, 0x02, 0x01, 0x7f, 0x02, 0x01, 0x01}};
+            int v = (int)((o.arg(2) >> 2) % 4);
+            if (v < 3) good.assign(tiny[v], tiny[v] + 8);
+            else { good.assign(72, 0xee); good[0] = 0x30; good[1] = 70; good[2] = 0x02; good[3] = 33; good[4] = 0x00; good[5] = 0x80; good[37] = 0x02; good[38] = 33; good[39] = 0x00; good[40] = 0x80; }
+            structural = true;
+        }
+        Bytes rec = good;
         size_t n = good.size();
         switch (f) {
             case D_BITROT: { int k = 1 + (int)(a2 % 3); for (int i = 0; i < k && n; i++) { size_t bit = (size_t)((a1 + 7919 * i) % (int64_t)(8 * n)); rec[bit / 8] ^= (uint8_t)(1u << (bit % 8)); } } break;
@@ -320,7 +331,7 @@ static void store_execute(const Plan &p, const ExecOpts &, Result &r) {
             case D_HDRBIT: if (n) { size_t span = std::min<size_t>(n, 2 + (size_t)(a2 % 3)); size_t bit = (size_t)(a1 % (int64_t)(8 * span)); rec[bit / 8] ^= (uint8_t)(1u << (bit % 8)); } break;   // single-bit rot in the header bytes, where the structure is
             default: break;
         }
-        bool intact = rec == good;
+        bool intact = rec == good && !structural;   // structural records parse but are not the wallet's own signature
         if (f != D_NONE && !intact) r.fault(std::string("disk.") + DN[f]);
         r.ev(std::string("read ") + AN[t] + " " + DN[f] + " len " + std::to_string(rec.size()) + " " + hex(rec).substr(0, 24));
         r.cover.insert(std::string("cell:") + AN[t] + ":" + DN[f]);
